@@ -1558,7 +1558,7 @@ StringReader StringReader::sub(size_t offset, size_t size) const {
   if (offset >= this->length) {
     return StringReader();
   }
-  if (offset + size > this->length) {
+  if (size > this->length - offset) {
     return StringReader(
         reinterpret_cast<const char*>(this->data) + offset,
         this->length - offset);
@@ -1576,7 +1576,7 @@ StringReader StringReader::subx(size_t offset) const {
 }
 
 StringReader StringReader::subx(size_t offset, size_t size) const {
-  if (offset + size > this->length) {
+  if ((offset > this->length) || (size > this->length - offset)) {
     throw out_of_range("sub-reader begins or extends beyond end of data");
   }
   return StringReader(reinterpret_cast<const char*>(this->data) + offset, size);
@@ -1595,7 +1595,7 @@ BitReader StringReader::sub_bits(size_t offset, size_t size) const {
   if (offset >= this->length) {
     return BitReader();
   }
-  if (offset + size > this->length) {
+  if (size > this->length - offset) {
     return BitReader(
         reinterpret_cast<const char*>(this->data) + offset,
         (this->length - offset) * 8);
@@ -1613,7 +1613,7 @@ BitReader StringReader::subx_bits(size_t offset) const {
 }
 
 BitReader StringReader::subx_bits(size_t offset, size_t size) const {
-  if (offset + size > this->length) {
+  if ((offset > this->length) || (size > this->length - offset)) {
     throw out_of_range("sub-reader begins or extends beyond end of data");
   }
   return BitReader(reinterpret_cast<const char*>(this->data) + offset, size * 8);
